@@ -95,7 +95,6 @@ func (d *Data) loadXYImages(load *bulkLoadInfo, extents *dvid.Extents) error {
 		lastSlice := fileNum == len(load.filenames)
 		firstSliceInBlock := firstSlice || zInBlock == 0
 		lastSliceInBlock := lastSlice || zInBlock == blockSize.Value(2)-1
-		lastBlocks := fileNum+int(blockSize.Value(2)) > len(load.filenames)
 
 		// Load images synchronously
 		vox, err := d.loadXYImage(filename, load.offset)
@@ -103,11 +102,10 @@ func (d *Data) loadXYImages(load *bulkLoadInfo, extents *dvid.Extents) error {
 			return err
 		}
 
-		// Allocate blocks and/or load old block data if first/last XY blocks.
-		// Note: Slices are only zeroed out on first and last slice with assumption
-		// that ExtData is packed in XY footprint (values cover full extent).
-		// If that is NOT the case, we need to zero out blocks for each block layer.
-		if fileNum == 1 || (lastBlocks && firstSliceInBlock) {
+		// Allocate blocks and load old block data at the first slice of every block
+		// layer: the slices need not cover the XY footprint of the blocks they touch,
+		// and the first and last layer need not be covered in Z.
+		if firstSliceInBlock {
 			numBlocks = dvid.GetNumBlocks(vox, blockSize)
 			if fileNum == 1 {
 				for layer := 0; layer < numLayers; layer++ {
